@@ -64,6 +64,10 @@ func genC15(e *emitter, tier string, seed int64) {
 		{"grok", []scriptSrc{{"a.p", "add_pattern(\"W\", \"\\\\w+\")\nif true {\n  add_pattern(\"N\", \"\\\\d+\")\n  grok(_, \"%{W:w} %{N:n:int}\")\n}\np(get_key(w), get_key(n))\n"}}, 0},
 		{"use", []scriptSrc{{"a.p", "v = \"a\"\nuse(\"b.p\")\np(v, get_key(fromb))\n"}, {"b.p", "v = \"b\"\nadd_key(fromb, v)\nexit()\nadd_key(never, 1)\n"}}, 0},
 		{"regs-scopes", []scriptSrc{{"a.p", "x = pr(pr(1) + len(pr([1, 2])))\nif x {\n  y = x\n  if y {\n    z = [y, get_key(message)]\n    p(z)\n  }\n}\nrename(m2, message)\ncast(f1, \"str\")\n"}}, 0},
+		// readers of names other scripts leave behind (a recycled task must start with no variables), also in a callee
+		{"reader", []scriptSrc{{"a.p", "p(\"r\", zero, v, x, y, z, j, i, w)\nuse(\"b.p\")\n"}, {"b.p", "p(\"rb\", zero, v, x, y, z, j, i, w)\n"}}, 0},
+		{"fail-in-if-after-use", []scriptSrc{{"a.p", "v = \"A\"\nzero = 0\nuse(\"b.p\")\nif true {\n  if true {\n    x = 1 / zero\n  }\n}\n"}, {"b.p", "w = \"B\"\n"}}, 0},
+		{"callee-fails-in-for", []scriptSrc{{"a.p", "v = \"A2\"\nj = 5\nuse(\"b.p\")\n"}, {"b.p", "w = \"B2\"\nzz = 0\nfor i = 0; i < 1; i = i + 1 {\n  y = 1 / zz\n}\n"}}, 0},
 		{"map-json", []scriptSrc{{"a.p", "j = load_json(\"{\\\"a\\\": [1, 2.5]}\")\nadd_key(j)\nadd_key(k2, j[\"a\"][1])\n"}}, 0},
 	}
 	points := []pointSpec{
